@@ -618,6 +618,20 @@ func c16Run(c *c16Case, ctx *Ctx) {
 		if tArr != nil {
 			obs = append(obs, c16Obs{tag: "t", ty: tArr})
 		}
+		// "rejected ... and build nothing", on the receiver itself: Init called directly on a zero
+		// typed array (through the method set of the typed array) must leave it empty when it fails
+		if wantErr != "ok" {
+			ta := t.emptyTyped()
+			func() {
+				defer func() { recover() }()
+				if err := c16InitTyped(ta, c.Idx, t.slice(c.Vals)); err != nil {
+					b := ta.base()
+					if b.Cnt != 0 || len(b.Bitmaps) != 0 || len(b.Offsets) != 0 || len(b.Elts) != 0 {
+						ctx.Or.Violate("C16:rejected-init-builds-something", fmt.Sprintf("%s.Init returned %s but left Cnt=%d, %d bitmap words, %d offsets, %d element bytes in the array", strings.ToUpper(t.name), c16ErrKind(err), b.Cnt, len(b.Bitmaps), len(b.Offsets), len(b.Elts)), replay())
+					}
+				}
+			}()
+		}
 	}
 	{
 		kind := "ok"
@@ -1886,4 +1900,23 @@ func c16SameNameTypes(c *Ctx) {
 			return
 		}
 	}
+}
+
+// Init through the typed array's own method set (today promoted from Base)
+func c16InitTyped(ta c16Typed, idx []int32, s interface{}) error {
+	switch x := ta.(type) {
+	case c16tU16:
+		return x.U16.Init(idx, s.([]uint16))
+	case c16tU32:
+		return x.U32.Init(idx, s.([]uint32))
+	case c16tU64:
+		return x.U64.Init(idx, s.([]uint64))
+	case c16tI16:
+		return x.I16.Init(idx, s.([]int16))
+	case c16tI32:
+		return x.I32.Init(idx, s.([]int32))
+	case c16tI64:
+		return x.I64.Init(idx, s.([]int64))
+	}
+	return nil
 }
